@@ -159,9 +159,17 @@ def sweep(cfg, fill, hist, transport='udp'):
     if bulk[0] != 'ok':
         return [('bulk-read', str(bulk), None)], h(state), len(ids)
     data = bulk[1]
+    after = world.listed(inv)
+    still = {x.id_ for x in after}
     for s in ids:
         if s.id_ not in data:
-            continue   # capability changed under the bulk read: nothing to compare (C15's business)
+            # capability changed under the bulk read: values cannot be compared (the key sets are C15's business) - but an id
+            # that is STILL listed after the bulk read must not be unknown to read_sensor
+            one = singles[s.id_]
+            if s.id_ in still and one[0] == 'exc' and one[1] == 'ValueError' and 'nknown sensor' in one[2]:
+                vio.append((f'unknown-sensor/{type(s).__name__}', f'read_sensor({s.id_!r}): {one[2]}; sensors() lists the id before and '
+                                                                  f'after the bulk read (which does not report it)', s.id_))
+            continue
         one = singles[s.id_]
         b = data[s.id_]
         t = type(s).__name__
